@@ -938,10 +938,11 @@ def isLrn : PyVal → Bool
   | .flt .tmp _ | .str .tmp _ | .tuple .tmp _ | .list .tmp _ | .dict .tmp _ _ => true
   | _ => false
 
-/-- a PMF over the actions: numeric, non-negative, summing to one -/
+/-- a PMF over the actions: numeric, non-negative, summing to one within the tolerance `possible_pmf` documents
+(`isclose(sum, 1, abs_tol=.001)`; float32 softmaxes, `[0.3333]*3`, … are PMFs) -/
 def validPmf (pmf : List PyVal) (as : List PyVal) : Bool :=
   pmf.length == as.length &&
-  (match sumNums pmf with | some s => s == 1 | Option.none => false) &&
+  (match sumNums pmf with | some s => decide (s - 1 ≤ 1/1000 ∧ 1 - s ≤ 1/1000) | Option.none => false) &&
   pmf.all (fun x => match x.num with | some q => decide (0 ≤ q) | Option.none => false)
 
 /-- an answer long enough for the pinned `pred_format` (which takes 0/1-item answers for already wrapped and indexes
@@ -1100,7 +1101,7 @@ namespace Coba.C15
 
 /-- one evaluation history: for every interaction `predict(context, actions)` and then
 `learn(context, action, reward, probability, **kwargs)` with what predict returned.  `batchable = false`: the learner's
-`learn` raises on a batch (per-row fallback).  Returns per interaction the result and what the learner's learn was given. -/
+`learn` raises on a batch (per-row fallback) - whatever its `predict` does with batches (`_method` is kept per method).  Returns per interaction the result and what the learner's learn was given. -/
 def runHistory (fx : Fixes) (L : Learner) (batchable : Bool) : State → List (Arg × PyVal) → Except Err (List (Result × List LearnCall))
   | _, [] => pure []
   | st, (a, rw) :: h => do
@@ -1125,7 +1126,7 @@ def LearnMeets (batchable : Bool) (cs : List PyVal) (rw : PyVal) (r : Result) (v
 /-- the history delivers, interaction by interaction, what the learner meant (`wantSingle` / `wantBatch` on the argument
 the learner is given, with the generator state threaded through), and every learn gets the kwargs of its predict;
 a PMF that `CobaRandom.choicew` rejects ends the history with that error -/
-def HistDelivers (fx : Fixes) (sp : Spec) (pol : Policy) :
+def HistDelivers (fx : Fixes) (sp : Spec) (pol : Policy) (batchable : Bool) :
     State → List (Arg × PyVal) → Except Err (List (Result × List LearnCall)) → Prop
   | _, [], x => x = .ok []
   | st, (a, rw) :: h, x =>
@@ -1134,14 +1135,14 @@ def HistDelivers (fx : Fixes) (sp : Spec) (pol : Policy) :
       match wantSingle sp (prepare fx st a).1.rng (pol c gs) gs with
       | .error e => x = .error e
       | .ok (r, s') =>
-        ∃ rest, HistDelivers fx sp pol (stAfter sp false (prepare fx st a).1 s') h rest ∧
+        ∃ rest, HistDelivers fx sp pol batchable (stAfter sp false (prepare fx st a).1 s') h rest ∧
           x = rest.map (fun l => (r, [⟨c, r.a, rw, r.p, (if sp.kw then (pol c gs).kwKeys else []), (if sp.kw then (pol c gs).kwVals else [])⟩]) :: l)
     | .batch cs grows =>
       match wantBatch sp (prepare fx st a).1.rng (rowsOf pol cs grows) with
       | .error e => x = .error e
       | .ok (v, s') =>
-        ∃ r lc rest, r.view = some v ∧ LearnMeets (sp.layout != .single) cs rw r v lc ∧
-          HistDelivers fx sp pol (stAfter sp true (prepare fx st a).1 s') h rest ∧
+        ∃ r lc rest, r.view = some v ∧ LearnMeets batchable cs rw r v lc ∧
+          HistDelivers fx sp pol batchable (stAfter sp true (prepare fx st a).1 s') h rest ∧
           x = rest.map (fun l => (r, lc) :: l)
 
 /-- the side conditions of a history, interaction by interaction on the argument the learner is given (`prepare`: the
